@@ -1,7 +1,7 @@
 (* C01 — conversion is total and terminating.  PARTIAL (see DESIGN.md): the generic loop theorems and the
    facts about the regenerated patterns; per-handler progress and nesting bounds need the parser model. *)
 From Coq Require Import ZArith List Bool Lia Arith.
-From Verif Require Import PyStr Rx RxSpec RxAnalysis Loop LoopProofs UnicodeGen RxGen Inline InlineProofs InlineGen Entry.
+From Verif Require Import PyStr Rx RxSpec RxAnalysis Loop LoopProofs UnicodeGen RxGen Inline InlineProofs InlineGen Block BlockProofs BlockGen RxHead Entry.
 Import ListNotations.
 Local Open Scope nat_scope.
 
@@ -82,7 +82,65 @@ Example C01_inline_example :
   end.
 Proof. vm_compute. reflexivity. Qed.
 
+(* ---- the block parser (model Model/Block.v: scanner loop, eleven handlers, quotes with lazy continuation, lists) ---- *)
+Theorem C01_tie_block_skeletons : block_skeletons_ok = true.
+Proof. reflexivity. Qed.
+
+Lemma block_cfg_ok : forall C, block_cfg = Some C -> bcfg_ok C.
+Proof.
+  intros C H. unfold block_cfg in H.
+  match type of H with context [opt_all ?l] => let v := eval vm_compute in (opt_all l) in change (opt_all l) with v in H end.
+  inversion H; subst C; clear H.
+  constructor; cbn [b_line_end b_spec b_strict_quote b_lb_rules b_item_rx b_blank_line b_bracket_start b_bracket b_href_block b_title b_blank_to_line].
+  - reflexivity.
+  - intros r. destruct r; vm_compute; reflexivity.
+  - vm_compute; reflexivity.
+  - intros w rk r Hin. unfold lb_rules_of in Hin.
+    destruct w as [|[|[|w]]];
+      match type of Hin with In _ (lb_named ?l) => let v := eval vm_compute in (lb_named l) in change (lb_named l) with v in Hin end;
+      cbn [In] in Hin; repeat (destruct Hin as [Hin|Hin]; [inversion Hin; subst; vm_compute; reflexivity|]); contradiction.
+  - intros b w. unfold item_rx_of.
+    repeat match goal with |- context [if ?c then _ else _] => destruct c end; destruct w as [|[|[|w]]]; vm_compute; reflexivity.
+  - vm_compute; reflexivity.
+  - vm_compute; reflexivity.
+  - intros rk [->| ->]; vm_compute; reflexivity.
+  - intros w rk r Hin Hk. unfold lb_rules_of in Hin.
+    destruct w as [|[|[|w]]];
+      match type of Hin with In _ (lb_named ?l) => let v := eval vm_compute in (lb_named l) in change (lb_named l) with v in Hin end;
+      cbn [In] in Hin; repeat (destruct Hin as [Hin|Hin]; [inversion Hin; subst; first [vm_compute; reflexivity|destruct Hk; discriminate]|]); contradiction.
+  - vm_compute; reflexivity.
+  - vm_compute; reflexivity.
+  - vm_compute; reflexivity.
+  - vm_compute; reflexivity.
+  - vm_compute; reflexivity.
+Qed.
+
+Example C01_block_cfg_exists : match block_cfg with Some C => List.length (b_rules C) = 10 /\ b_max_nested C = 6 | None => False end.
+Proof. vm_compute. split; reflexivity. Qed.
+
+(* every loop of BlockParser.parse - the scanner loop, the lazy-continuation loop of block quotes, the line and item loops
+   of lists - terminates for every text: the model never runs out of loop budget.  What remains is the nesting budget,
+   the model's rendering of CPython's recursion limit (answer Exn): the implementation recurses once per nested or
+   interrupting block (known finding alternating-container-lines-recursion). *)
+Theorem C01_block_parser_loops_terminate : forall C s, block_cfg = Some C -> block_parse C s <> Fuel.
+Proof. intros C s H. apply block_parse_never_out_of_fuel. exact (block_cfg_ok C H). Qed.
+
+(* every block handler that accepts returns a position beyond the cursor *)
+Theorem C01_block_cursor_advances : forall C fuel rk m st rf st2 rf2 np p, block_cfg = Some C -> mok C rk m st ->
+  bhandle C fuel rk m st rf = Ok (st2, rf2, np) -> Block.truthy np = Some p -> s_cursor st < p.
+Proof. intros C fuel rk m st rf st2 rf2 np p H. apply block_handlers_advance. exact (block_cfg_ok C H). Qed.
+
+Example C01_block_example :
+  match block_cfg with
+  | Some C => block_parse C [35; 32; 104; 10; 62; 32; 45; 32; 97; 10; 62; 32; 32; 32; 98; 10]%Z =
+              Ok ([BHeading [104%Z] 1 false; BQuote [BList [BListItem [BBlockText [97; 10; 98; 10]%Z]] true 45%Z 1 false None]], [])
+  | None => False
+  end.
+Proof. vm_compute. reflexivity. Qed.
+
 Print Assumptions C01_loop_terminates.
 Print Assumptions C01_nonnullable_rule_advances.
 Print Assumptions C01_inline_parser_terminates.
 Print Assumptions C01_inline_cursor_advances.
+Print Assumptions C01_block_parser_loops_terminate.
+Print Assumptions C01_block_cursor_advances.
